@@ -37,37 +37,52 @@ typedef u128           WIDE;
 #endif
 #define TOTBITS ((((BITS) + (WBITS) - 1) / (WBITS)) * (WBITS))
 
-// ---- assume/guarantee stand-in for the 64-bit double-word helper (only with -DDS_CONTRACT, W = u64) ---------------
-// Multiply: the contract itself (exact 128-bit product; proved for the real code in C19_dsize.cpp: ds_mul).
-// Divide  : asserts the callee's precondition (high < divisor, divisor != 0, shift = 63 - msb(divisor)), records the
-//           call, returns an ARBITRARY (quotient, remainder) constrained only by consequences of the contract
-//           (high:low == q*divisor + r  and  r < divisor):  r < divisor;  high != 0  =>  q != 0.
+// word x word -> exact double-width product.  noinline keeps the multiplication at the double-word width (clang would widen
+// it to the width of the surrounding oracle arithmetic).
+__attribute__((noinline)) static DW wmul(W a, W k) { return (DW)((DW)a * (DW)k); }
+
+// ---- assume/guarantee stand-in for the double-word helper DoubleSize<W,bits(W)> (only with -DDS_CONTRACT) ----------------
+// The real helpers are checked against native double-width arithmetic in C19_dsize.cpp; here BigInt is checked OVER their contract.
+// Why: a SAT solver cannot even show two separate copies of one 8x8 multiplier equal in reasonable time, so the oracle and the code
+// under test must share the product term.
+// Multiply: the contract itself - the exact double-width product.  For the operand pairs announced by the harness (g_ma/g_mk, in
+//           call order) it returns the product the harness has already computed (g_mp = wmul(a,k), the same term the oracle sums);
+//           for any other operands it flags g_pre_ok and still returns the exact product.
+// Divide  : checks the callee's precondition (divisor != 0, high < divisor, for 64-bit words shift = 63 - msb(divisor)), records
+//           the call, and returns an ARBITRARY (quotient, remainder) constrained only by consequences of the contract
+//           "high:low == q*divisor + r and r < divisor", namely  r < divisor  and  (high != 0 => q != 0).
 #ifdef DS_CONTRACT
 #define DSMAX 8
-static unsigned g_n;
+static unsigned g_n;                 // calls so far
 static bool     g_pre_ok = true;
-static u64      g_hi[DSMAX], g_lo[DSMAX], g_q[DSMAX], g_r[DSMAX];
+static W        g_ma[DSMAX], g_mk[DSMAX];
+static DW       g_mp[DSMAX];
+static W        g_hi[DSMAX], g_lo[DSMAX], g_q[DSMAX], g_r[DSMAX];
 namespace Qentem {
 template <>
-struct DoubleSize<unsigned long long, 64U> {
-    static void Divide(u64 &high, u64 &low, const u64 divisor, const SizeT32 shift) noexcept {
-        const unsigned k = g_n;
-        if (k >= DSMAX) { g_pre_ok = false; return; }
-        if (divisor == 0) { g_pre_ok = false; return; }
+struct DoubleSize<W, WBITS> {
+    static void Divide(W &high, W &low, const W divisor, const SizeT32 shift) noexcept {
+        const unsigned c = g_n;
+        if (c >= DSMAX || divisor == 0) { g_pre_ok = false; return; }
         if (!(high < divisor)) g_pre_ok = false;
+#if WBITS == 64
         if (shift != SizeT32(__builtin_clzll(divisor))) g_pre_ok = false;
-        g_hi[k] = high; g_lo[k] = low;
-        u64 q = vf_u64();
-        u64 r = vf_u64();
+#endif
+        g_hi[c] = high; g_lo[c] = low;
+        W q = vf_any<W>();
+        W r = vf_any<W>();
         vf_assume(r < divisor);
         vf_assume(high == 0 || q != 0);
-        g_q[k] = q; g_r[k] = r; g_n = k + 1U;
+        g_q[c] = q; g_r[c] = r; g_n = c + 1U;
         high = r; low = q;
     }
-    static u64 Multiply(u64 &number, u64 multiplier) noexcept {
-        const u128 p = (u128)number * multiplier;
-        number = (u64)p;
-        return (u64)(p >> 64U);
+    static W Multiply(W &number, W multiplier) noexcept {
+        const unsigned c = g_n;
+        DW p;
+        if (c < DSMAX && number == g_ma[c] && multiplier == g_mk[c]) { p = g_mp[c]; g_n = c + 1U; }
+        else { g_pre_ok = false; p = wmul(number, multiplier); }
+        number = (W)p;
+        return (W)(p >> WBITS);
     }
 };
 }
@@ -103,6 +118,9 @@ static constexpr unsigned NW = B::MaxIndex() + 1U, WB = WBITS, TOT = TOTBITS;
 static_assert(sizeof(W) * 8U == WBITS, "WBITS");
 static_assert(B::TotalBits() == TOTBITS && NW * WB == TOT, "TOTBITS");
 static_assert(sizeof(B::storage_) == NW * sizeof(W), "storage");
+#ifdef DS_CONTRACT
+static_assert(NW <= DSMAX, "DSMAX");
+#endif
 
 // ---- representation invariant and arbitrary pre-state ------------------------------------------------------------
 static inline bool inv(const B &b) {
@@ -169,22 +187,12 @@ static inline bool m_sub(M &m, W n, unsigned idx) {
     if (m < t) return false;
     m -= t; return true;
 }
-#ifdef MUL_WHOLE
-static inline bool m_mul(M &m, W k) {          // m*k needs TOT+WB bits: split off the lowest word
-    const V lo = (V)(W)m * (V)k;               // < 2^(2*WB)
-    const V hi = (V)(m >> WB) * (V)k;          // < 2^TOT
-    if ((hi >> (TOT - WB)) != 0) return false; // hi << WB must stay below 2^TOT
-    const V r = (V)(hi << WB) + lo;
-    if (r < lo || !m_fit(r)) return false;
-    m = r; return true;
-}
-#else
-// m*k spelled by distributivity over the words of m:  sum_i (word_i * k) * 2^(WB*i)  in V arithmetic; "fits" = no term and no
-// partial sum reaches 2^TOT (all terms are non-negative, so this is exactly  m*k < 2^TOT)
-static inline bool m_mul(M &m, W k) {
+// m*k spelled by distributivity over the words of m:  sum_i pp[i] * 2^(WB*i)  in V arithmetic, pp[i] = word_i * k exactly (double
+// width).  "fits" = no term and no partial sum reaches 2^TOT (all terms are non-negative, so this is exactly  m*k < 2^TOT).
+static inline bool m_mul(M &m, const DW *pp) {
     V acc = 0; bool fits = true;
     for (unsigned i = 0; i < NW; i++) {
-        const V p = (V)m_word(m, i) * (V)k;                       // < 2^(2*WB) <= 2^VBITS
+        const V p = (V)pp[i];                                     // < 2^(2*WB) <= 2^VBITS
         const unsigned room = TOT - WB * i;                       // bits available at this position (>= WB)
         if (room < 2U * WB && (p >> (room & (VBITS - 1U))) != 0) fits = false;
         const V t = (V)(p << (WB * i));
@@ -194,7 +202,6 @@ static inline bool m_mul(M &m, W k) {
     }
     m = acc; return fits;
 }
-#endif
 static inline W m_div(M &m, W d) { const W r = (W)(m % (V)d); m = m / (V)d; return r; }
 static inline void m_shr(M &m, unsigned off) { m = (off >= TOT) ? (V)0 : (m >> (off & (VBITS - 1U))); }
 static inline bool m_shl(M &m, unsigned off) {
@@ -244,10 +251,10 @@ static inline bool m_sub(M &m, W n, unsigned idx) {   // borrow chain
     }
     return c == 0;
 }
-static inline bool m_mul(M &m, W k) {
+static inline bool m_mul(M &m, const DW *pp) {    // pp[i] = word_i * k exactly (double width); carry chain
     W c = 0;
     for (unsigned i = 0; i < NW; i++) {
-        const DW p = (DW)((DW)m.w[i] * (DW)k + (DW)c);
+        const DW p = (DW)(pp[i] + (DW)c);         // <= (2^WB-1)^2 + 2^WB-1 < 2^(2*WB)
         m.w[i] = (W)p; c = (W)(p >> WB);
     }
     return c == 0;
@@ -339,7 +346,7 @@ extern "C" void h_sub_op() {         // b -= word ; b -= wide
     if (m_sub_wide(mw, x)) { c -= x; vf_assert(inv(c), 3); vf_assert(m_eq(c, mw), 4); }
     vf_witness();
 }
-extern "C" void h_mul() {            // Multiply / *=   (with -DDS_CONTRACT: modulo the contract of DoubleSize::Multiply)
+extern "C" void h_mul() {            // Multiply / *=   (with -DDS_CONTRACT: over the contract of DoubleSize::Multiply)
     B b; any_state(b);
     W k = vf_any<W>();
 #ifdef KF_EXCL_C19_mul_zero
@@ -349,8 +356,18 @@ extern "C" void h_mul() {            // Multiply / *=   (with -DDS_CONTRACT: mod
     vf_assume(k == 0 && b.index_ != 0);
 #endif
     M m = m_of(b);
-    vf_assume(m_mul(m, k));
+    DW pp[NW];                       // the exact word products; words above the index are zero
+    for (unsigned i = 0; i < NW; i++) pp[i] = wmul(b.storage_[i], k);
+#ifdef DS_CONTRACT
+    const unsigned idx = b.index_;   // call c multiplies word idx - c
+    for (unsigned c = 0; c < NW; c++) if (c <= idx) { g_ma[c] = b.storage_[(idx - c) % NW]; g_mk[c] = k; g_mp[c] = pp[(idx - c) % NW]; }
+    g_n = 0;
+#endif
+    vf_assume(m_mul(m, pp));
     b *= k;
+#ifdef DS_CONTRACT
+    vf_assert(g_pre_ok && g_n == idx + 1U, 4);   // one DoubleSize::Multiply per word, top down, each on the ORIGINAL word
+#endif
     vf_assert(inv(b), 1);
     vf_assert(m_eq(b, m), 2);
     vf_assert(b.IsZero() == m_is_zero(m), 3);
